@@ -4,10 +4,13 @@
 (* wrong: exit 2, never a violation.                                        *)
 EXTENDS Naturals, Sequences, TLC, TLCExt
 S3 == INSTANCE SM3
+S4 == INSTANCE SM4
 VARIABLE done
 Init == done = 0
 Next == /\ done = 0
         /\ done' = 1
         /\ Assert(S3!VectorsOK, "SM3 standard vectors")
+        /\ Assert(S4!SBoxTableOK, "SM4 algebraic S-box = literal table")
+        /\ Assert(S4!VectorsOK, "SM4 standard example")
 Spec == Init /\ [][Next]_done
 =============================================================================
